@@ -89,13 +89,13 @@ func (c *exoCtx) emit(method, args string, target any, readOnly bool, f func()) 
 		"mut": !readOnly}
 	fp0 := ""
 	if readOnly && target != nil {
-		fp0 = fpOf(deepString(target, nil, true, false))
+		fp0 = fpOf(purityString(target))
 	}
 	ci := invoke(e, f)
 	e["panic"], e["pmsg"], e["out"] = ci.Panic, ci.PMsg, ci.Out
 	e["pure"] = true
 	if readOnly && target != nil && !ci.Panic {
-		e["pure"] = fp0 == fpOf(deepString(target, nil, true, false))
+		e["pure"] = fp0 == fpOf(purityString(target))
 	}
 	emit(e)
 	c.calls++
